@@ -402,6 +402,10 @@ impl Module {
         let out = cx.wasm_module.finish();
         log::debug!("emission finished");
 
+        // Emission must not consume the custom sections: put them back so the
+        // module can be emitted (or inspected) again.
+        self.customs = customs;
+
         // let mut validator = Validator::new();
         // if let Err(err) = validator.validate_all(&out) {
         //     eprintln!("{:?}", err);
